@@ -182,6 +182,36 @@ func s3(p *core.Program, a *spec.Anchors, r *core.Report, writes, reads bool) {
 			}
 		}
 	}
+	// functions that exist only to serve the public accessors GradContext / Gradient / ResetGradContext: the accessors
+	// themselves and every function all of whose callers are such
+	accessorOnly := map[*ssa.Function]bool{}
+	for _, fn := range p.ModuleFunctions(core.PkgCPU) {
+		if fn.Parent() == nil && (fn.Name() == "GradContext" || fn.Name() == "Gradient" || fn.Name() == "ResetGradContext") && fn.Signature.Recv() != nil {
+			accessorOnly[fn] = true
+		}
+	}
+	for changed := true; changed; {
+		changed = false
+		for _, fn := range p.ModuleFunctions(core.PkgCPU) {
+			if accessorOnly[fn] {
+				continue
+			}
+			node := g.Nodes[fn]
+			if node == nil || len(node.In) == 0 {
+				continue
+			}
+			all := true
+			for _, e := range node.In {
+				if !accessorOnly[e.Caller.Func] {
+					all = false
+					break
+				}
+			}
+			if all {
+				accessorOnly[fn], changed = true, true
+			}
+		}
+	}
 	nG, nT, nReads := 0, 0, 0
 	// writesTensorParam[fn][i]: fn (transitively) writes data/dims/gctx of the CPUTensor passed as parameter i
 	type obligation struct {
@@ -191,6 +221,7 @@ func s3(p *core.Program, a *spec.Anchors, r *core.Report, writes, reads bool) {
 		pos   token.Pos
 	}
 	var pending []obligation
+	var pendingG []obligation // the same for GradContext fields
 
 	for _, fn := range p.ModuleFunctions() {
 		key := core.FuncKey(fn)
@@ -263,6 +294,12 @@ func s3(p *core.Program, a *spec.Anchors, r *core.Report, writes, reads bool) {
 							r.Pass("S3.gctx-write", key, fr.Name, p.Pos(x.Pos()), "the back-propagation walk marks / accumulates")
 							continue
 						}
+						if pi := paramIndex(fn, fr.Base); pi >= 0 && fn.Name() != "ResetGradContext" {
+							// the context is handed in (an option / initialiser applied to a context under construction): every
+							// caller must pass one it allocated itself
+							pendingG = append(pendingG, obligation{fn, pi, fr.Name, x.Pos()})
+							continue
+						}
 						r.Violate("S3.gctx-write", key, fr.Name, p.Pos(x.Pos()),
 							fmt.Sprintf("writes GradContext.%s of an existing context outside the back-propagation walk: only BackPropagate assigns gradients / spends tensors and only ResetGradContext (by replacing the context) changes tracking", fr.Name),
 							"a forward operation changes the tracking state or gradient of one of its operands")
@@ -293,8 +330,8 @@ func s3(p *core.Program, a *spec.Anchors, r *core.Report, writes, reads bool) {
 						continue
 					}
 					nReads++
-					if core.PkgPathOf(fn) == core.PkgCPU && (fn.Name() == "GradContext" || fn.Name() == "Gradient") && fn.Parent() == nil {
-						r.Pass("S3.gctx-read", key, "", p.Pos(x.Pos()), "public accessor")
+					if accessorOnly[fn] {
+						r.Pass("S3.gctx-read", key, "", p.Pos(x.Pos()), "public accessor (or a helper only the accessors call)")
 						continue
 					}
 					r.Violate("S3.gctx-read", key, "read", p.Pos(x.Pos()),
@@ -304,6 +341,111 @@ func s3(p *core.Program, a *spec.Anchors, r *core.Report, writes, reads bool) {
 		}
 	}
 	if writes {
+		// a tensor-producing public method hands out a tensor object allocated by this very call, never an operand
+		// (or an object stored somewhere): the caller may reset, track and back-propagate the result on its own
+		nRes := 0
+		isCPUT := func(t types.Type) bool {
+			n, ok := types.Unalias(t).(*types.Named)
+			return ok && sameNamed(n, a.CPUTensor)
+		}
+		isTensorT := func(t types.Type) bool {
+			if types.Identical(t, a.TensorIface) {
+				return true
+			}
+			if pt, ok := types.Unalias(t).(*types.Pointer); ok {
+				return isCPUT(pt.Elem())
+			}
+			return false
+		}
+		var freshRes func(v ssa.Value, depth int) bool
+		freshRes = func(v ssa.Value, depth int) bool {
+			if depth > 20 {
+				return false
+			}
+			if c, isC := v.(*ssa.Const); isC && c.IsNil() {
+				return true
+			}
+			if fi.isFresh(v, 0) {
+				return true
+			}
+			switch x := v.(type) {
+			case *ssa.MakeInterface:
+				return freshRes(x.X, depth+1)
+			case *ssa.ChangeInterface:
+				return freshRes(x.X, depth+1)
+			case *ssa.ChangeType:
+				return freshRes(x.X, depth+1)
+			case *ssa.TypeAssert:
+				return freshRes(x.X, depth+1)
+			case *ssa.Extract:
+				return freshRes(x.Tuple, depth+1)
+			case *ssa.Phi:
+				for _, ed := range x.Edges {
+					if !freshRes(ed, depth+1) {
+						return false
+					}
+				}
+				return true
+			case *ssa.UnOp:
+				if al, ok := x.X.(*ssa.Alloc); ok && x.Op == token.MUL {
+					anyStore := false
+					for _, ref := range *al.Referrers() {
+						if st, ok := ref.(*ssa.Store); ok && st.Addr == al {
+							anyStore = true
+							if !freshRes(st.Val, depth+1) {
+								return false
+							}
+						}
+					}
+					return anyStore
+				}
+			case *ssa.Call:
+				// another tensor-producing operation invoked through the Tensor interface: fresh by this same rule
+				if x.Call.IsInvoke() && types.Identical(x.Call.Value.Type(), a.TensorIface) {
+					res := x.Call.Method.Type().(*types.Signature).Results()
+					return res.Len() >= 1 && isTensorT(res.At(0).Type())
+				}
+				if callee := x.Call.StaticCallee(); callee != nil && callee.Signature.Recv() != nil && callee.Object() != nil && callee.Object().Exported() {
+					if pt, ok := types.Unalias(callee.Signature.Recv().Type()).(*types.Pointer); ok && isCPUT(pt.Elem()) {
+						res := callee.Signature.Results()
+						return res.Len() >= 1 && isTensorT(res.At(0).Type())
+					}
+				}
+			}
+			return false
+		}
+		for _, fn := range p.ModuleFunctions(core.PkgCPU) {
+			if fn.Parent() != nil || fn.Signature.Recv() == nil || fn.Object() == nil || !fn.Object().Exported() {
+				continue
+			}
+			pt, ok := types.Unalias(fn.Signature.Recv().Type()).(*types.Pointer)
+			if !ok || !isCPUT(pt.Elem()) {
+				continue
+			}
+			res := fn.Signature.Results()
+			if res.Len() == 0 || !isTensorT(res.At(0).Type()) || fn.Name() == "Gradient" {
+				continue
+			}
+			key := core.FuncKey(fn)
+			for _, b := range fn.Blocks {
+				for _, in := range b.Instrs {
+					ret, ok := in.(*ssa.Return)
+					if !ok || len(ret.Results) == 0 {
+						continue
+					}
+					nRes++
+					if freshRes(ret.Results[0], 0) {
+						r.Pass("S3.result-fresh", key, "", p.Pos(ret.Pos()), "the returned tensor is allocated by this call (or nil)")
+						continue
+					}
+					r.Violate("S3.result-fresh", key, "returns-existing", p.Pos(ret.Pos()),
+						"a tensor-producing operation returns a tensor object that existed before the call (an operand or a stored tensor) instead of a new one: resetting, tracking or back-propagating the result then acts on that other tensor",
+						"r := x.Op(…); r.ResetGradContext(true) changes x")
+				}
+			}
+		}
+		r.Count("S3.result_returns", nRes)
+		r.Min("S3.result_returns", 30)
 		// who may call ResetGradContext: only the library's user.  A library function that resets a tensor it
 		// was handed changes the tracking state, gradient and graph edges of a caller-owned tensor.
 		nCalls := 0
@@ -331,7 +473,7 @@ func s3(p *core.Program, a *spec.Anchors, r *core.Report, writes, reads bool) {
 			}
 		}
 		r.Count("S3.call_sites_scanned", nCalls)
-		r.Min("S3.call_sites_scanned", 300)
+		r.Min("S3.call_sites_scanned", 100)
 	}
 	if !writes {
 		r.Count("S3.gctx_reads", nReads)
@@ -432,11 +574,57 @@ func s3(p *core.Program, a *spec.Anchors, r *core.Report, writes, reads bool) {
 			r.Pass("S3.tensor-write", core.FuncKey(ob.fn), ob.field, p.Pos(ob.pos), "every caller passes a tensor it allocated itself (or forwards the obligation)")
 		}
 	}
+	// the same discharge for contexts handed to initialisers / options
+	seenG := map[string]bool{}
+	for len(pendingG) > 0 {
+		ob := pendingG[0]
+		pendingG = pendingG[1:]
+		k := fmt.Sprintf("%s#%d#%s", core.FuncKey(ob.fn), ob.param, ob.field)
+		if seenG[k] {
+			continue
+		}
+		seenG[k] = true
+		node := g.Nodes[ob.fn]
+		exported := ob.fn.Parent() == nil && ob.fn.Object() != nil && ob.fn.Object().Exported()
+		if exported || node == nil || len(node.In) == 0 {
+			r.Violate("S3.gctx-write", core.FuncKey(ob.fn), ob.field, p.Pos(ob.pos),
+				fmt.Sprintf("writes GradContext.%s of a context it received and that its callers cannot be shown to have allocated: only BackPropagate assigns gradients / spends tensors and only ResetGradContext (by replacing the context) changes tracking", ob.field),
+				"a forward operation changes the tracking state or gradient of one of its operands")
+			continue
+		}
+		allOK := true
+		for _, e := range callersOf(node) {
+			if e.Site == nil {
+				continue
+			}
+			args := e.Site.Common().Args
+			// dynamic calls through a function value carry the callee's parameters in order
+			if ob.param >= len(args) {
+				allOK = false
+				continue
+			}
+			arg := args[ob.param]
+			caller := e.Caller.Func
+			if fi.isFresh(arg, 0) {
+				continue
+			}
+			if pi := paramIndex(caller, arg); pi >= 0 {
+				pendingG = append(pendingG, obligation{caller, pi, ob.field, e.Site.Pos()})
+				continue
+			}
+			allOK = false
+			r.Violate("S3.gctx-write", core.FuncKey(caller), ob.field+"→"+core.FuncKey(ob.fn), p.Pos(e.Site.Pos()),
+				fmt.Sprintf("passes an existing gradient context to %s, which writes its %s", core.FuncKey(ob.fn), ob.field), "a forward operation changes the tracking state or gradient of one of its operands")
+		}
+		if allOK {
+			r.Pass("S3.gctx-write", core.FuncKey(ob.fn), ob.field, p.Pos(ob.pos), "every caller passes a context it allocated itself (or forwards the obligation)")
+		}
+	}
 	r.Count("S3.gradcontext_field_stores", nG)
 	r.Count("S3.tensor_field_stores", nT)
 	r.Count("S3.gctx_reads", nReads)
-	r.Min("S3.gradcontext_field_stores", 4)
-	r.Min("S3.tensor_field_stores", 20)
+	r.Min("S3.gradcontext_field_stores", 2)
+	r.Min("S3.tensor_field_stores", 5)
 	r.Min("S3.gctx_reads", 1)
 }
 
